@@ -389,11 +389,33 @@ def deriveSecrets (okm : Bytes) (least : Bool) : Bytes × Bytes × Bytes :=
   let ch := (okm.drop 64).take 32
   if least then (k1, k2, ch) else (k2, k1, ch)
 
+/-- the second half of `MakeSecretConnection`, once the secrets are derived: build the
+    connection, sign the challenge, exchange the auth messages over it, verify.
+    `w1` = what was already written, `conn` = incoming bytes still in flight. -/
+def authenticate (P : Prims) (A : AEAD) (pad locPriv w1 conn : Bytes)
+    (recvSecret sendSecret challenge : Bytes) : HsOut :=
+  let locPub := P.pubKey locPriv
+  let sc : SC := ⟨sendSecret, recvSecret, nonceOf 0, nonceOf 0, [], []⟩
+  let locSignature := P.sign locPriv challenge
+  -- shareAuthSignature
+  let w := write A pad sc (encAuth locPub locSignature)
+  if w.panicked then ⟨w1 ++ w.wire, conn, .error .panicNonce, challenge⟩ else
+  match readSized A ⟨some w.sc, conn⟩ with
+  | (r2, .error e) => ⟨w1 ++ w.wire, r2.conn, .error (.authRead e), challenge⟩
+  | (r2, .ok body) =>
+    match decAuthBody body with
+    | none => ⟨w1 ++ w.wire, r2.conn, .error .authDecode, challenge⟩
+    | some (remPubKey, remSignature) =>
+      if ¬ P.verify remPubKey challenge remSignature then
+        ⟨w1 ++ w.wire, r2.conn, .error .challenge, challenge⟩
+      else
+        let sc2 := (r2.sc.getD w.sc)
+        ⟨w1 ++ w.wire, r2.conn, .ok { sc2 with remPubKey := remPubKey }, challenge⟩
+
 /-- `MakeSecretConnection(conn, locPrivKey)` with the ephemeral private key that
     `genEphKeys` drew, on a connection whose incoming queue holds `incoming`. -/
 def makeSecretConnection (P : Prims) (A : AEAD) (pad : Bytes)
     (locPriv locEphPriv : Bytes) (incoming : Bytes) : HsOut :=
-  let locPub := P.pubKey locPriv
   let locEphPub := P.ephPub locEphPriv
   let w1 := encEph locEphPub
   -- shareEphPubKey
@@ -408,22 +430,7 @@ def makeSecretConnection (P : Prims) (A : AEAD) (pad : Bytes)
       match P.dh locEphPriv remEphPub with
       | none => ⟨w1, r1.conn, .error .dh, []⟩
       | some dhSecret =>
-        let (recvSecret, sendSecret, challenge) := deriveSecrets (P.kdf dhSecret) least
-        let sc : SC := ⟨sendSecret, recvSecret, nonceOf 0, nonceOf 0, [], []⟩
-        let locSignature := P.sign locPriv challenge
-        -- shareAuthSignature
-        let w := write A pad sc (encAuth locPub locSignature)
-        if w.panicked then ⟨w1 ++ w.wire, r1.conn, .error .panicNonce, challenge⟩ else
-        match readSized A ⟨some w.sc, r1.conn⟩ with
-        | (r2, .error e) => ⟨w1 ++ w.wire, r2.conn, .error (.authRead e), challenge⟩
-        | (r2, .ok body) =>
-          match decAuthBody body with
-          | none => ⟨w1 ++ w.wire, r2.conn, .error .authDecode, challenge⟩
-          | some (remPubKey, remSignature) =>
-            if ¬ P.verify remPubKey challenge remSignature then
-              ⟨w1 ++ w.wire, r2.conn, .error .challenge, challenge⟩
-            else
-              let sc2 := (r2.sc.getD w.sc)
-              ⟨w1 ++ w.wire, r2.conn, .ok { sc2 with remPubKey := remPubKey }, challenge⟩
+        let s := deriveSecrets (P.kdf dhSecret) least
+        authenticate P A pad locPriv w1 r1.conn s.1 s.2.1 s.2.2
 
 end GnoVerif.C42
